@@ -163,7 +163,7 @@ pub fn enum_def(e: &EnumSpec, o: &EnumOpts) -> String {
     let salt = crate::fnv(e.name.as_bytes());
     let g = generics(e, o.t_bound, o.t_inst);
     if let Some(b) = e.base_const {
-        let _ = writeln!(s, "pub const BASE: {} = {};", e.repr_int.as_deref().unwrap_or("isize"), b);
+        let _ = writeln!(s, "#[allow(non_upper_case_globals)] pub const {}: {} = {};", e.base_const_name.as_deref().unwrap_or("BASE"), e.repr_int.as_deref().unwrap_or("isize"), b);
     }
     // default_with functions
     for (vi, v) in e.variants.iter().enumerate() {
